@@ -855,7 +855,11 @@ func c11M6(r *Run) {
 	gs := goSites(p, "kmipclient")
 	for _, g := range gs {
 		key := fnKey(g.fn) + "/go#" + strings.TrimPrefix(g.target, "kmipclient.")
-		if fnKey(g.fn) == "kmipclient.newConn" && (g.target == "kmipclient.conn.readloop" || g.target == "kmipclient.conn.writeloop") {
+		loop := g.target
+		if g.inner != "" {
+			loop = g.inner // a thin wrapper closure around the loop (deferred close of the loop's channel, a WaitGroup Done)
+		}
+		if fnKey(g.fn) == "kmipclient.newConn" && (loop == "kmipclient.conn.readloop" || loop == "kmipclient.conn.writeloop") {
 			r.OK("C11.M6", key, g.in.Pos(), "per-connection loop; leaves on ctx.Done(), a closed channel or a stream error (M3), and terminate closes the stream so a blocked Read/Write returns")
 		} else {
 			r.Bad("C11.M6", key, g.in.Pos(), "goroutine %s started in %s is not one of the two per-connection loops: nothing shows it ends when the client is closed", g.target, fnKey(g.fn))
